@@ -181,7 +181,21 @@ func extractShapes() {
 		st := allStmts(sh)
 		addFact("shutdownIdempotent", "Bool", boolLean(anyMatch(st, `^if s\.local\.Delete\(session\.ID\(\)\) == nil$`)), "a second shutdown of the same session is a no-op")
 		addFact("shutdownClosesConn", "Bool", boolLean(anyMatch(st, `^session\.Close\(\)$`)), "the connection of an ended session is closed")
-		addFact("shutdownGuardOwnRecordOnly", "Bool", boolLean(anyMatch(st, `^if metadata\.SessionID != session\.ID\(\)$`)), "the session record is deleted unless the client id resolves to another session")
+		// the only record shutdownSession removes is the session's own (looked up by SESSION id: a look-up by client id may
+		// answer with another session's record); the will is withheld when another live record carries mount point + client id
+		ownOnly, deletes := true, 0
+		for _, x := range st {
+			if strings.Contains(x, "SessionMetadatas().Delete(") {
+				deletes++
+				if x != "s.state.SessionMetadatas().Delete(session.ID())" {
+					ownOnly = false
+				}
+			}
+		}
+		addFact("shutdownGuardOwnRecordOnly", "Bool", boolLean(ownOnly && deletes == 1 &&
+			anyMatch(st, `^if metadata\.SessionID != session\.ID\(\) && metadata\.MountPoint == session\.MountPoint\(\) && metadata\.ClientID == session\.ClientID\(\)$`) &&
+			anyMatch(st, `^if reconnected$`)),
+			"shutdownSession removes the session's own record only, and withholds the will when another live record carries its mount point and client id")
 		addFact("willOnlyIfNotDisconnected", "Bool", boolLean(anyMatch(st, `^if !session\.Disconnected$`)), "the will is published only when the session did not DISCONNECT")
 	}
 	// --- publish.go
